@@ -52,6 +52,10 @@ def run_check(prop: str, tier: str, seed: int) -> int:
 
 
 def main(argv=None) -> int:
+    if argv is None and os.environ.get("PYTHONHASHSEED") != "0":
+        # reproducible runs: the iteration order of sets of strings must not depend on the per-process hash seed
+        os.environ["PYTHONHASHSEED"] = "0"
+        os.execv(sys.executable, [sys.executable, "-m", "osv"] + sys.argv[1:])
     ap = argparse.ArgumentParser(prog="osv")
     sub = ap.add_subparsers(dest="cmd", required=True)
     c = sub.add_parser("check")
